@@ -134,6 +134,12 @@ def gen_plan_c19(rng: Rng, tier: str, faulty: bool) -> Dict[str, Any]:
         rel_mode = rng.chance(0.25)
         if rel_mode:
             out_dir = "{N}_rel/g" + ("" if reuse_dir else str(c))
+        if c > 0 and rng.chance(0.5):
+            # the documented what-if workflow between two saves: the archives then differ
+            cur_sess["ops"].append({"op": "cp_reweight", "graph": graph_idx, "edits": gen_edits(rng)})
+            cur_sess["ops"].append({"op": "cp_recompute", "graph": graph_idx})
+            if rng.chance(0.6):
+                cur_sess["ops"].append({"op": "cp_breakdown", "graph": graph_idx})
         save = {"op": "cp_save", "graph": graph_idx, "out_dir": out_dir, "abs": not rel_mode}
         cur_sess["ops"].append(save)
         if c == 0 and not bd_before:
@@ -255,6 +261,7 @@ def check(plan: Dict[str, Any], execution: Dict[str, Any], props: Optional[Set[s
     saved_total: Dict[str, Optional[float]] = {}
     bd_of_saved: Dict[str, Optional[Dict[str, Any]]] = {}
     hashseed_of_save: Dict[str, Any] = {}
+    archive_edited: Dict[str, bool] = {}
     for si, (sess, sx) in enumerate(zip(plan["sessions"], execution["sessions"])):
         results = driver.op_results(sx)
         graphs: List[Optional[Dict[str, Any]]] = []   # per graph index: {"node_list", "edited", "obs", "origin", "bd"}
@@ -328,14 +335,18 @@ def check(plan: Dict[str, Any], execution: Dict[str, Any], props: Optional[Set[s
                         res.probe("reweighting_moved_the_path")
                     if g.get("restored"):
                         res.probe("recompute_on_restored_graph")
-                        if not g["edited"] and g.get("saved_total") is not None and tot is not None and tot != g["saved_total"]:
+                        if not g.get("edited_since_restore") and g.get("saved_total") is not None and tot is not None and tot != g["saved_total"]:
                             res.violate("C19", "recompute-total-differs", {"restored": tot, "original": g["saved_total"]}, si, r["i"])
                     g["obs"] = dict(g["obs"], **{k: obs[k] for k in obs if k in GRAPH_KEYS}) if g.get("obs") else obs
                     g["total"] = tot
+                    g["bd"] = None
                     res.states.add(("recompute", g["edited"], bool(g.get("restored"))))
                 elif kind == "cp_reweight":
                     if obs.get("changed"):
                         g["edited"] = True
+                        g["edited_since_restore"] = True
+                        g["changed_since_save"] = True
+                        g["bd"] = None
                         if g.get("obs"):
                             newe = {(u, v): w for u, v, _old, w in obs["changed"]}
                             g["obs"] = dict(g["obs"])
@@ -347,7 +358,7 @@ def check(plan: Dict[str, Any], execution: Dict[str, Any], props: Optional[Set[s
                     res.probe("deepcopy")
                 elif kind == "cp_breakdown":
                     g["bd"] = obs
-                    if g.get("restored") and g.get("expect_bd") is not None and not g["edited"]:
+                    if g.get("restored") and g.get("expect_bd") is not None and not g.get("edited_since_restore"):
                         res.oracle_evals += 1
                         res.nontrivial = True
                         a, b = obs.get("breakdown"), g["expect_bd"].get("breakdown")
@@ -364,9 +375,11 @@ def check(plan: Dict[str, Any], execution: Dict[str, Any], props: Optional[Set[s
                     saved_total[z] = g.get("total")
                     bd_of_saved[z] = g.get("bd")
                     hashseed_of_save[z] = sx.get("hashseed")
+                    archive_edited[z] = g["edited"]
                     g["saved_as"] = z
+                    g["changed_since_save"] = False
                     res.probe("save_acknowledged")
-                if kind == "cp_breakdown" and g.get("saved_as") and bd_of_saved.get(g["saved_as"]) is None and not g["edited"]:
+                if kind == "cp_breakdown" and g.get("saved_as") and bd_of_saved.get(g["saved_as"]) is None and not g.get("changed_since_save"):
                     bd_of_saved[g["saved_as"]] = obs
             elif kind == "cp_restore":
                 z = o["zip"]
@@ -379,7 +392,7 @@ def check(plan: Dict[str, Any], execution: Dict[str, Any], props: Optional[Set[s
                     continue
                 obs = r["obs"]
                 exp = archives.get(z)
-                g = {"node_list": obs.get("node_list"), "edited": False, "obs": obs, "bd": None, "restored": True,
+                g = {"node_list": obs.get("node_list"), "edited": bool(archive_edited.get(z)), "obs": obs, "bd": None, "restored": True,
                      "saved_total": saved_total.get(z), "expect_bd": bd_of_saved.get(z),
                      "seed_changed": hashseed_of_save.get(z) != sx.get("hashseed"), "total": None}
                 graphs.append(g)
